@@ -24,18 +24,33 @@ RULE = ("cells = (pair family x parametrisation x dimension/geometry x interface
         "a fresh sampler, target setter on a sampler that already drew for a supported posterior, HybridGibbs sampling "
         "strategy, find_valid_samplers listing - oracle: several occurrences / non-scalar Gamma must be refused by the "
         "route itself (stateful interface), any other unsupported dependence is refused by the route or by the first step, "
-        "or the captured Gamma is exact on the grid.  A supported cell is non-trivial when the sampler accepted the target "
-        "and issued a Gamma request; a refusal cell when the same route accepts the supported control posterior")
+        "or the captured Gamma is exact on the grid.  A near-miss cell (stateful interface) = (documented pair x the "
+        "likelihood parameter carrying the hyper-parameter x perturbation form of the supported dependence): the reciprocal "
+        "1/s (cov, LMRF scale) perturbed to 1/(s+d), (1+d)/s, 1/s+d, 1/s**(1+d), the identity s (prec) to s+d, s*(1+d), "
+        "s/(1+d*s), s**(1+d); inside the cell the full product sign of d x |d| catalogue x data scale {normalised, raw "
+        "= x 2^10} x 2 priors x the same 5 acceptance routes.  Oracle: refused by the route or by the first step; or, for "
+        "the pairs that are sampled exactly by design, the captured Gamma is exact for the target's own density on a "
+        "t-grid placed where the conditional has its mass (standard grid; grid x 2^round(log2(1/(|r|^2/2+b))) for raw data); "
+        "for the pairs that are approximate by design (Regularized*, LMRF) the draws cannot be judged, so acceptance of a "
+        "dependence that is decidedly another function (differs from the supported form by more than 1e-8 relative on "
+        "the standard grid - computed by the check from the two callables, not from the library) is itself the violation.  "
+        "A supported cell is non-trivial when the sampler accepted the target "
+        "and issued a Gamma request; a refusal / near-miss cell when the same route accepts the supported control posterior "
+        "(for a near-miss cell: the d = 0 twin of the same pair and parameter)")
 BOUND = {
     "quick": "Gaussian dims 1..4 x {cov=1/s, cov=1.0/s, prec=s, prec=s*ones, scalar mean with cov / prec}; GMRF 1-D "
              "N=2..5 + 2-D 2x2,3x3 x bc {zero,neumann,periodic} x order 0..2; 9 Gamma(shape,rate) x 7 mean/data kinds "
              "(1 generic vector, zero residual, 5 zero/integer kinds); t-grid {0.1,0.5,1,2,7,30}; refusal alphabet: 19 "
              "unsupported dependences / priors + 9 several-occurrence likelihoods (mean with cov, prec, sqrtcov, sqrtprec; "
              "GMRF mean with prec, zero and periodic bc; mean forms s*v, sqrt(s)*v, v/s) on both interfaces + (LMRF "
-             "location with scale) on ConjugateApprox, x 5 routes on the stateful interface; re-targeting: all 24 ordered "
-             "triples of 4 posteriors on one object; 12 Direct target families",
+             "location with scale) on ConjugateApprox, x 5 routes on the stateful interface; near-miss family (stateful "
+             "interface): 7 pair/parameter combinations {Gaussian cov, Gaussian prec, GMRF(zero bc, order 1) prec, "
+             "RegularizedGaussian cov, RegularizedGaussian prec, RegularizedGMRF prec (nonnegativity), LMRF scale} x 4 "
+             "perturbation forms x sign +- x |d| in 2^-{10,20,26,40} x data scale {1, 2^10} x 2 priors x 5 routes, n = 3; "
+             "re-targeting: all 24 ordered triples of 4 posteriors on one object; 12 Direct target families",
     "thorough": "Gaussian dims 1..10; GMRF 1-D N=2..10 + 2-D 2x2..5x5; 9 Gamma(shape,rate) x 9 mean/data kinds "
-                "(3 generic vectors, zero residual, 5 zero/integer kinds); otherwise as quick",
+                "(3 generic vectors, zero residual, 5 zero/integer kinds); near-miss |d| in "
+                "2^-{6,10,14,17,20,23,26,40}; otherwise as quick",
 }
 ASSUMPTIONS = [
     "trusted base: numpy.random.gamma(shape, scale) draws from the Gamma law with exactly these parameters; "
@@ -62,6 +77,19 @@ ASSUMPTIONS = [
     "several-occurrence members whose second occurrence does not change the posterior (e.g. mean = v + 0*s) are not in "
     "the alphabet",
     "values of t outside the grid (and, for the clipped dependences, outside the extended grid) are not covered",
+    "near-miss family, resolution: the library documents no tolerance for its structural test (the docstrings say 'is "
+    "the identity' / 'is the reciprocal'), so the floor is the harness's own closed-form tolerance: a perturbed "
+    "dependence is decided when it differs from the supported form by more than 1e-8 relative (ten times the 1e-9 "
+    "tolerance of the density comparison) somewhere on the standard grid t in [0.1, 30] - true for every form at "
+    "|d| >= 2^-26 (1.5e-8) and for none at |d| = 2^-40 (9.1e-13).  Undecided members are offered all the same; their "
+    "acceptance is counted, not judged.  Where an undecided member is accepted and raw data then expose an inexact draw "
+    "(additive guard 1/(s+d), s+d: relative effect d/t grows without bound as |r|^2 grows), this is reported under the "
+    "recorded probe-only signature 'agrees-at-probe-points' and under no other",
+    "near-miss family: perturbations that the sampler's own construction absorbs (a constant gain: prec = (1+d)s is "
+    "sampled exactly because the unit-hyper-parameter factor carries the gain) are legitimately 'accepted and exact'",
+    "near-miss family on the stateless interface is not enumerated: that interface has no structural validation at "
+    "all (recorded per functional form); one GMRF geometry (zero bc, order 1, N = 3) and one dimension (n = 3) only; "
+    "perturbation catalogue = 4 one-parameter forms, not all functions within d of the supported one",
 ]
 
 IFACES = ["legacy", "exp"]
@@ -83,6 +111,18 @@ UNSUPPORTED = ["cov=s", "cov=1/s**2", "prec=s**2", "prec=2*s", "sqrtprec=sqrt(s)
 APPROX_ONLY = ["lmrf-location-and-scale"]     # (LMRF, Gamma): pair of ConjugateApprox (stateful interface only)
 # acceptance routes of the stateful interface
 ROUTES = ["ctor", "setter", "setter-used", "hybridgibbs", "find_valid_samplers"]
+
+# near-miss dependences (stateful interface): documented pair x parameter, perturbation form, size, data scale
+NEAR_FAMS = [("gauss", "cov"), ("gauss", "prec"), ("gmrf", "prec"), ("reg-gauss", "cov"), ("reg-gauss", "prec"),
+             ("reg-gmrf", "prec"), ("lmrf", "scale")]
+NEAR_FORMS = ["shift", "gain", "floor", "power"]
+NEAR_TEXT = {(True, "shift"): "1/(s+delta)", (True, "gain"): "(1+delta)/s", (True, "floor"): "1/s+delta",
+             (True, "power"): "1/s**(1+delta)", (False, "shift"): "s+delta", (False, "gain"): "s*(1+delta)",
+             (False, "floor"): "s/(1+delta*s)", (False, "power"): "s**(1+delta)"}
+NEAR_DEXP = {"quick": [10, 20, 26, 40], "thorough": [6, 10, 14, 17, 20, 23, 26, 40]}      # |delta| = 2^-e
+NEAR_SCALES = [0, 10]                        # data multiplied by 2^e (e > 0: raw, un-normalised data, |r|^2 ~ 1e5..1e6)
+NEAR_PRIORS = [(1.0, 1e-4), (3.0, 2.0)]
+NEAR_DECIDED = 1e-8     # a dependence is decidedly another function when it differs by more than this (relative) on GRID
 
 DIRECT = ["gauss-scalar-cov", "gauss-full-cov", "gauss-prec", "gauss-sqrtcov", "gauss-sqrtprec", "gmrf-zero",
           "gamma", "gamma-vector", "laplace", "normal", "lognormal", "uniform-1d"]
@@ -113,6 +153,9 @@ def cells(tier, seed):
         # E1 add-on: ONE sampler object re-targeted between posteriors of different structure (same dimension)
         for n in ((4,) if quick else (3, 4, 6)):
             yield {"kind": "retarget", "iface": iface, "n": n, "cat": k}
+    for (fam, key) in NEAR_FAMS:
+        for form in NEAR_FORMS:
+            yield {"kind": "near", "iface": "exp", "fam": fam, "key": key, "form": form, "cat": k, "dexp": NEAR_DEXP[tier]}
     for fam in DIRECT:
         yield {"kind": "direct", "fam": fam, "cat": k, "n": 3 if quick else 5}
 
@@ -525,9 +568,16 @@ def _unsupported_parts(case, n, k, a, b):
     return s, y, data
 
 
+def _parts(case, n, k, a, b):
+    """A member of the refusal alphabet is a name (fixed catalogue) or a dict (near-miss family, see _near_parts)."""
+    if isinstance(case, dict):
+        return _near_parts(case, n, k, a, b)
+    return _unsupported_parts(case, n, k, a, b)
+
+
 def _unsupported_target(case, n, k, a, b):
     from cuqi.distribution import JointDistribution
-    s, y, data = _unsupported_parts(case, n, k, a, b)
+    s, y, data = _parts(case, n, k, a, b)
     return JointDistribution(s, y)(y=data)
 
 
@@ -549,18 +599,24 @@ def _route_accept(route, cls, case, n, k, a, b):
         return smp
     if route == "setter-used":
         # one live sampler object that has already drawn for a supported posterior (what HybridGibbs does every sweep)
-        nn = 2 if case.startswith("gamma-2dim") else n
+        nn = 2 if (isinstance(case, str) and case.startswith("gamma-2dim")) else n
         smp = cls(_unsupported_target("control:" + cls.__name__, nn, k, a, b))
         with Stream(gamma=lambda rec, i: DRAW).installed():
             smp.step()
         smp.target = _unsupported_target(case, n, k, a, b)
         return smp
     if route == "hybridgibbs":
-        s, y, data = _unsupported_parts(case, n, k, a, b)
+        s, y, data = _parts(case, n, k, a, b)
         m = len(data)
-        z = Gaussian(lambda y: y, 1.0, geometry=m, name="z")
+        if isinstance(case, dict) and case["fam"].startswith("reg-"):
+            # an implicit (regularized) Gaussian is sampled by RegularizedLinearRTO, which wants a linear forward model
+            z = Gaussian(cuqi.model.LinearModel(np.eye(m)) @ y, 1.0, name="z")
+            ysampler = cuqi.experimental.mcmc.RegularizedLinearRTO()
+        else:
+            z = Gaussian(lambda y: y, 1.0, geometry=m, name="z")
+            ysampler = cuqi.experimental.mcmc.MH()
         joint = JointDistribution(s, y, z)(z=refs.dyadic_vec(m, k + 2, scale=0.25))
-        hg = cuqi.experimental.mcmc.HybridGibbs(joint, {"y": cuqi.experimental.mcmc.MH(), "s": cls()})
+        hg = cuqi.experimental.mcmc.HybridGibbs(joint, {"y": ysampler, "s": cls()})
         return hg.samplers["s"]
     if route == "find_valid_samplers":
         listed = cuqi.experimental.mcmc.find_valid_samplers(_unsupported_target(case, n, k, a, b))
@@ -577,8 +633,9 @@ def _unsup_signature(comp, case, iface):
     return "C10|%s|accepts-unsupported|%s" % (comp, "agrees-at-probe-points" if ("min(" in case and iface != "legacy") else case)
 
 
-def _judge_accepted(res, comp, case, iface, cap, target, grid, where, focus):
-    """An unsupported structure was accepted and a draw was made: it must then be exact."""
+def _judge_accepted(res, comp, case, iface, cap, target, grid, where, focus, sig=None, verdict=True):
+    """An unsupported structure was accepted and a draw was made: it must then be exact.
+    verdict=False: the comparison is made and its result returned, nothing is reported."""
     if len(cap) != 1:
         res.outcomes.add("accepted-without-gamma-request")
         res.fail("C10|%s|unsupported|%s,no-gamma-request" % (comp, case),
@@ -596,8 +653,8 @@ def _judge_accepted(res, comp, case, iface, cap, target, grid, where, focus):
     res.evaluations += 1
     ok, what, info = _judge(cap[0], tl, grid, 1e-9)
     res.outcomes.add("accepted-" + ("exact" if ok else "inexact:" + what))
-    if not ok:
-        res.fail(_unsup_signature(comp, case, iface),
+    if not ok and verdict:
+        res.fail(sig or _unsup_signature(comp, case, iface),
                  "unsupported dependence %r accepted (%s) and sampled approximately: drew Gamma(shape=%r, "
                  "rate=%r) but log-ratio to the target's own density varies over t=%s by %s" %
                  (case, where, info.get("shape"), info.get("rate"), grid, np.round(info.get("diff", 0), 6)),
@@ -713,6 +770,164 @@ def _eval_unsupported_exp(cell, res):
         res.nontrivial = False
     if res.sample is None:
         res.sample = {"case": case, "accepted": False, "routes": ROUTES, "outcomes": sorted(res.outcomes)}
+    return res
+
+
+# ----------------------------------------------------------------------------------------
+# near-miss dependences: the supported form perturbed by delta (stateful interface, every acceptance route)
+# ----------------------------------------------------------------------------------------
+def _near_fun(key, form, d):
+    """The dependence of the likelihood parameter `key` on the hyper-parameter s: the supported form (d == 0: reciprocal
+    for cov / scale, identity for prec) or one of four perturbations of size d, written the way a user would write them
+    (division / regularisation guard, gain, noise floor, exponent)."""
+    recip = key in ("cov", "scale")
+    if d == 0:
+        return (lambda s: 1 / s) if recip else (lambda s: s)
+    if recip:
+        return {"shift": lambda s: 1 / (s + d), "gain": lambda s: (1 + d) / s,
+                "floor": lambda s: 1 / s + d, "power": lambda s: 1 / s ** (1 + d)}[form]
+    return {"shift": lambda s: s + d, "gain": lambda s: s * (1 + d),
+            "floor": lambda s: s / (1 + d * s), "power": lambda s: s ** (1 + d)}[form]
+
+
+def _near_delta(spec):
+    return 0.0 if spec.get("dexp") is None else spec["sign"] * 2.0 ** (-spec["dexp"])
+
+
+def _near_mean_data(spec, n, k):
+    mean = refs.dyadic_vec(n, k + 1, scale=0.125)
+    data = (2.0 ** spec.get("scale", 0)) * refs.dyadic_vec(n, k, scale=0.25)      # raw, un-normalised data for scale > 0
+    return mean, data
+
+
+def _near_parts(spec, n, k, a, b):
+    """(hyper-prior, likelihood distribution, data) of one near-miss member {fam, key, form, sign, dexp, scale}."""
+    from cuqi.distribution import Gamma, Gaussian, GMRF, LMRF
+    from cuqi.implicitprior import RegularizedGaussian, RegularizedGMRF
+    fam, key = spec["fam"], spec["key"]
+    f = _near_fun(key, spec["form"], _near_delta(spec))
+    mean, data = _near_mean_data(spec, n, k)
+    s = Gamma(a, b, name="s")
+    if fam == "gauss":
+        y = Gaussian(mean, name="y", **{key: f})
+    elif fam == "gmrf":
+        y = GMRF(mean, prec=f, bc_type="zero", order=1, geometry=n, name="y")
+    elif fam == "reg-gauss":
+        y = RegularizedGaussian(mean, constraint="nonnegativity", name="y", **{key: f})
+    elif fam == "reg-gmrf":
+        y = RegularizedGMRF(mean, prec=f, bc_type="zero", order=1, constraint="nonnegativity", name="y")
+    elif fam == "lmrf":
+        y = LMRF(0, scale=f, geometry=n, name="y")
+    else:
+        raise ValueError(fam)
+    return s, y, data
+
+
+def _eval_near(cell, res):
+    """One (documented pair, parameter, perturbation form): sign x delta x data scale x prior x acceptance route.
+    Oracle: the route refuses; or - pairs sampled exactly by design - the captured Gamma is exact for the target's own
+    density on a t-grid placed where the conditional has its mass; pairs that are approximate by design cannot be
+    judged by their draws, for them acceptance of a decidedly different dependence is the violation."""
+    import cuqi
+    fam, key, form, k = cell["fam"], cell["key"], cell["form"], cell["cat"]
+    cls = cuqi.experimental.mcmc.ConjugateApprox if fam == "lmrf" else cuqi.experimental.mcmc.Conjugate
+    comp = "cuqi.experimental.mcmc." + cls.__name__
+    exact_pair = fam in ("gauss", "gmrf")
+    label = "%s~%s" % (key, "1/s" if key in ("cov", "scale") else "s")
+    if fam != "lmrf":
+        label += ",pair=%s" % ("exact" if exact_pair else "regularized")
+    sig = "C10|%s|accepts-near-miss|%s" % (comp, label)
+    n = 3
+    base = {"fam": fam, "key": key, "form": form}
+    # anti-vacuity: every route accepts the supported twin (delta = 0) of this pair and parameter
+    live_routes = 0
+    for route in ROUTES:
+        try:
+            _route_accept(route, cls, dict(base, sign=1, dexp=None, scale=0), n, k, 1.0, 1.0)
+            res.count("control-accepted@" + route)
+            live_routes += 1
+        except Exception as e:
+            res.count("control-refused@" + route)
+            res.outcomes.add("control-refused@%s:%s" % (route, type(e).__name__))
+        res.transitions += 1
+    g = _near_fun(key, form, 0.0)
+    for sign in (1, -1):
+        for dexp in cell["dexp"]:
+            f = _near_fun(key, form, sign * 2.0 ** (-dexp))
+            # independent of the library: is this dependence another function than the supported one on the t-grid?
+            dev = max(abs(f(t) - g(t)) / abs(g(t)) for t in GRID)
+            decided = dev > NEAR_DECIDED
+            res.count("decided" if decided else "undecided(below-resolution)")
+            for scale in NEAR_SCALES:
+                for (a, b) in NEAR_PRIORS:
+                    spec = dict(base, sign=sign, dexp=dexp, scale=scale)
+                    for route in ROUTES:
+                        res.state("%+d*2^-%d,x2^%d,a=%g,b=%g,%s" % (sign, dexp, scale, a, b, route))
+                        focus = dict(spec, prior=[a, b], route=route, max_rel_deviation_on_grid=dev)
+                        res.transitions += 1
+                        try:
+                            smp = _route_accept(route, cls, spec, n, k, a, b)
+                        except Exception as e:
+                            res.refused += 1
+                            res.outcomes.add("rejected@%s:%s" % (route, type(e).__name__))
+                            continue
+                        res.outcomes.add("accepted@%s:2^-%d" % (route, dexp))
+                        if not decided:
+                            res.count("undecided-accepted")
+                        if not exact_pair:
+                            if decided:
+                                res.fail(sig, "%s=%s with delta=%+g (differs from the supported form by %.3g relative on "
+                                         "t=%s) was accepted (route: %s) by a sampler that is approximate by design: "
+                                         "not rejected, and sampled as if delta were 0" %
+                                         (key, NEAR_TEXT[(key in ("cov", "scale"), form)], sign * 2.0 ** (-dexp), dev, GRID, route),
+                                         focus=focus)
+                            continue
+                        if smp is True:        # listing only; exactness is judged on the constructor route
+                            res.outcomes.add("listed")
+                            continue
+                        cap = []
+                        st = Stream(gamma=lambda rec, i: (cap.append(rec), DRAW)[1])
+                        try:
+                            with st.installed():
+                                smp.step()
+                            res.transitions += 1
+                        except HarnessError as e:
+                            res.fail("C10|%s|unsupported|%s,other-randomness" % (comp, label),
+                                     "near-miss dependence accepted (%s) and sampled with a non-Gamma random request: %s" % (route, e),
+                                     focus=focus)
+                            continue
+                        except Exception as e:
+                            res.refused += 1
+                            res.outcomes.add("rejected-at-step@%s:%s" % (route, type(e).__name__))
+                            continue
+                        # t-grid where the conditional lives: standard grid for normalised data, rescaled for raw data
+                        mean, data = _near_mean_data(spec, n, k)
+                        if scale:
+                            t0 = 2.0 ** round(math.log2(1.0 / (0.5 * float(np.sum((data - mean) ** 2)) + b)))
+                            grid = [t * t0 for t in GRID]
+                        else:
+                            grid = GRID
+                        ok = _judge_accepted(res, comp, "%s=%s" % (key, NEAR_TEXT[(key in ("cov", "scale"), form)]), "exp", cap,
+                                             smp.target, grid, "route %s, delta=%+g, data x 2^%d" % (route, sign * 2.0 ** (-dexp), scale),
+                                             focus, sig=sig, verdict=decided)
+                        if not decided and ok is not None:
+                            res.count("undecided-accepted-" + ("exact" if ok else "inexact"))
+                            if not ok:
+                                # indistinguishable from the supported form on the standard grid (and hence at any finite
+                                # probe tolerance there), materially different where raw data put the conditional: this IS
+                                # the recorded probe-only validation, reported under its signature and no other
+                                res.fail("C10|%s|accepts-unsupported|agrees-at-probe-points" % comp,
+                                         "%s=%s with delta=%+g agrees with the supported form to %.3g relative on t=%s, was accepted "
+                                         "(route: %s), and with raw data (x 2^%d) the Gamma drawn is not proportional to the "
+                                         "target's own density on t=%s" % (key, NEAR_TEXT[(key in ("cov", "scale"), form)],
+                                                                          sign * 2.0 ** (-dexp), dev, GRID, route, scale,
+                                                                          [float("%.3g" % t) for t in grid]), focus=focus)
+    res.traces += 1
+    res.count("live_routes", live_routes)
+    if live_routes == 0:
+        res.nontrivial = False
+    if res.sample is None:
+        res.sample = {"near_miss": base, "accepted": False, "routes": ROUTES, "outcomes": sorted(res.outcomes)}
     return res
 
 
@@ -850,4 +1065,6 @@ def eval_cell(cell):
         return _eval_unsupported(cell, res)
     if cell["kind"] == "retarget":
         return _eval_retarget(cell, res)
+    if cell["kind"] == "near":
+        return _eval_near(cell, res)
     return _eval_direct(cell, res)
